@@ -1,17 +1,20 @@
 // C01 harness, parts L7 and L8.
 //
 // L7  proposer vs verifier. A proposer executes in situation "casting": no sort (CastBlock sorted the list
-//     before), and before each transaction it looks at the node clock and stops when 3 s are used up; the
-//     list Execute RETURNS is the block body it publishes together with the root it computed. A verifier
-//     executes that published list ("fullverify", no clock). Both must obtain the same root, receipts,
-//     receipts tree and reward/refund store - whatever the proposer's clock did. The clock is moved 4 s
-//     ahead from inside the k-th BLOCKHASH lookup of the block (the contract the harness deploys performs
-//     one per call), for every k: the budget expires during every contract call of the list, so that the
-//     proposer gives up at every transaction that follows one.
+//
+//	before), and before each transaction it looks at the node clock and stops when 3 s are used up; the
+//	list Execute RETURNS is the block body it publishes together with the root it computed. A verifier
+//	executes that published list ("fullverify", no clock). Both must obtain the same root, receipts,
+//	receipts tree and reward/refund store - whatever the proposer's clock did. The clock is moved 4 s
+//	ahead from inside the k-th BLOCKHASH lookup of the block (the contract the harness deploys performs
+//	one per call), for every k: the budget expires during every contract call of the list, so that the
+//	proposer gives up at every transaction that follows one.
+//
 // L8  blocks executing concurrently in one process (the cast block runs on its own goroutine since
-//     proposal 020 while others are verified). Block A alone vs A while another goroutine executes block B
-//     over and over (own state object, own executor context); yields are injected from the BLOCKHASH
-//     callback on both sides. A's outcome must be that of the solo run.
+//
+//	proposal 020 while others are verified). Block A alone vs A while another goroutine executes block B
+//	over and over (own state object, own executor context); yields are injected from the BLOCKHASH
+//	callback on both sides. A's outcome must be that of the solo run.
 package main
 
 import (
